@@ -636,7 +636,7 @@ def _execute_c08_template(scn, scared):
             K, kw = scared.TemplateAttack, {}
         else:
             K = scared.TemplateDPAAttack
-            kw = {'selection_function': scared.attack_selection_function(kinds._make_leak_sf(classes), guesses=range(k), words=0)}
+            kw = {'selection_function': scared.attack_selection_function(kinds._make_leak_sf(classes, scn.get('vdtype') or 'uint8'), guesses=range(k), words=0)}
         if record:
             K = recording(K, rec, storage)
         a = K(container_building=scared.Container(ths), reverse_selection_function=rsf, model=scared.Value(), partitions=classes,
@@ -648,7 +648,7 @@ def _execute_c08_template(scn, scared):
         meta = {'value': vm[lo:hi, None].copy()} if kind == 'tstatic' else {'plaintext': ptm[lo:hi]}
         return scared.Container(make_ths(storage, Tm[lo:hi], meta, tag))
 
-    DD = vm[:, None].copy() if kind == 'tstatic' else np.stack([kinds.leak(classes, ptm[:, 0], g) for g in range(k)], 1)
+    DD = vm[:, None].copy() if kind == 'tstatic' else np.stack([kinds.leak(classes, ptm[:, 0], g, scn.get('vdtype') or 'uint8') for g in range(k)], 1)
     tol = compare.tol_for(scn['precision'])
     cols_after_run = []
     with env.clock(env.SimClock()), env.memory(env.SimMemory()):
@@ -778,6 +778,8 @@ def generate_c14(seed, tier):
            'match_rule': r.choice([1, 2, 5, 11, 1000]), 'match_cuts': sorted(set(r.sample(range(1, 40), r.choice([0, 0, 1, 2])))),
            'probe_before_build': r.random() < 0.35, 'key': r.randrange(k), 'noise': r.choice([2, 3]),
            'clock': None, 'threads': r.choice([1, 1, 2, 16])}
+    # storage dtype of the class values (building metadata, matching metadata / hypothesis values)
+    scn['vdtype'] = rng.stream(seed, 'vdtype').choice(['uint8', 'uint8', 'uint16', 'uint32', 'int16', 'int32'])
     return scn
 
 
@@ -799,7 +801,7 @@ def c14_data(scn):
     a = scn['noise']
     Tb = vals[:, None] * gains[None, :] + g.integers(-a, a + 1, (len(vals), L))
     cval = np.array(classes)
-    vb = cval[vals].astype('uint8' if max(classes) < 256 else 'uint16')
+    vb = cval[vals].astype(scn.get('vdtype') or ('uint8' if max(classes) < 256 else 'uint16'))
     nm = scn['nm']
     ptm = g.integers(0, k, (nm, 1)).astype('uint8')
     posm = (ptm[:, 0].astype(int) + scn['key']) % k
@@ -834,7 +836,7 @@ def _c14_attack(scn, scared, storage, Tb, vb, tag='build'):
     if scn['kind'] == 'tstatic':
         return scared.TemplateAttack(container_building=scared.Container(ths), reverse_selection_function=rsf, model=scared.Value(),
                                      partitions=classes, precision=scn['precision'])
-    asf = scared.attack_selection_function(kinds._make_leak_sf(list(scn['classes'])), guesses=range(k), words=0)
+    asf = scared.attack_selection_function(kinds._make_leak_sf(list(scn['classes']), scn.get('vdtype') or 'uint8'), guesses=range(k), words=0)
     return scared.TemplateDPAAttack(container_building=scared.Container(ths), reverse_selection_function=rsf, selection_function=asf,
                                     model=scared.Value(), partitions=classes, precision=scn['precision'])
 
@@ -1023,7 +1025,7 @@ def _cands_c14(scn):
         c['per_class'] = [2] * len(c['per_class'])
         yield c
     for key, val in (('match_cuts', []), ('probe_before_build', False), ('build_rule', 1000), ('build_rule_2', 1000), ('match_rule', 1000),
-                     ('threads', 1), ('tdtype', 'float32'), ('key', 0)):
+                     ('threads', 1), ('tdtype', 'float32'), ('key', 0), ('vdtype', 'uint8')):
         if scn.get(key) != val:
             c = copy.deepcopy(scn)
             c[key] = val
